@@ -138,12 +138,14 @@ type c13world struct {
 	driven   bool
 	notes    []string
 	trig     map[string]bool
+	trig17   map[[2]int]bool // (connection, signal) keys on which a counter transition overlapped a remote call
+	trig16   map[[2]int]bool // (emission index, connection): a request of that connection was processed during that emission
 	uidOf    map[uint64]int
 	bad      []string // harness-level surprises (an expected effect did not happen)
 }
 
 func c13new(nclients int) *c13world {
-	w := &c13world{n: rig.NewNet(), trig: map[string]bool{}, uidOf: map[uint64]int{}}
+	w := &c13world{n: rig.NewNet(), trig: map[string]bool{}, uidOf: map[uint64]int{}, trig17: map[[2]int]bool{}, trig16: map[[2]int]bool{}}
 	srv, err := bus.StandAloneServer(w.n, bus.Yes{}, bus.PrivateNamespace())
 	if err != nil {
 		panic(err)
@@ -209,6 +211,7 @@ func (w *c13world) startSub(c int, sig uint32, h int) *c13sub {
 	for _, o := range w.subs {
 		if o.conn == c && o.sig == sig && (o.waitReg || o.waitUnreg) {
 			w.trig["sub_unserialised"] = true
+			w.trig17[[2]int{c, int(sig)}] = true
 		}
 		if o.conn != c && o.h == h && !o.finished {
 			w.trig["uid_global"] = true
@@ -326,10 +329,11 @@ func (w *c13world) deliver(s *c13sub) {
 	if w.n.WaitFor(c13Wait, func() bool { return s.count() >= want }) {
 		w.lab("LDeliver %d", s.idx)
 		s.delivered++
+		s.queued--
 	} else {
 		w.surprise("subscriber %d: an event dispatched to its handler was not read", s.idx)
+		s.queued = 0
 	}
-	s.queued--
 }
 
 // mbox: the next request of connection c reaches the object.  Label LMbox c (the answer is
@@ -347,6 +351,7 @@ func (w *c13world) mbox(c int) {
 	}
 	if w.emitBusy {
 		w.trig["snapshot_send"] = true
+		w.trig16[[2]int{len(w.emits) - 1, c}] = true
 	}
 	w.lab("LMbox %d", c)
 	answered := w.n.WaitFor(c13Block, func() bool {
@@ -601,6 +606,7 @@ func (w *c13world) startCancel(s *c13sub) {
 	for _, o := range w.subs {
 		if o != s && o.conn == s.conn && o.sig == s.sig && (o.waitReg || o.waitUnreg) {
 			w.trig["sub_unserialised"] = true
+			w.trig17[[2]int{s.conn, int(s.sig)}] = true
 		}
 	}
 	s.cancelled, s.cancelPos = true, w.pos()
@@ -740,6 +746,7 @@ func (w *c13world) caseTerm(cfg string) string {
 
 type c13verdict struct {
 	kind, detail string
+	key          string // the observed defect switch whose trigger explains this failure ("" = none)
 }
 
 func (w *c13world) oracles() []c13verdict {
@@ -759,11 +766,11 @@ func (w *c13world) oracles() []c13verdict {
 			i, ok := emIndex[p]
 			switch {
 			case !ok:
-				v = append(v, c13verdict{"foreign-payload", fmt.Sprintf("subscriber %d (connection %d, signal %d) read %d which was never emitted; schedule: %s", s.idx, s.conn, s.sig, p, hist)})
+				v = append(v, c13verdict{"foreign-payload", fmt.Sprintf("subscriber %d (connection %d, signal %d) read %d which was never emitted; schedule: %s", s.idx, s.conn, s.sig, p, hist), ""})
 			case w.emits[i].sig != s.sig:
-				v = append(v, c13verdict{"other-signal", fmt.Sprintf("subscriber %d of signal %d read payload %d emitted for signal %d; schedule: %s", s.idx, s.sig, p, w.emits[i].sig, hist)})
+				v = append(v, c13verdict{"other-signal", fmt.Sprintf("subscriber %d of signal %d read payload %d emitted for signal %d; schedule: %s", s.idx, s.sig, p, w.emits[i].sig, hist), ""})
 			case i <= last:
-				v = append(v, c13verdict{"order-or-duplicate", fmt.Sprintf("subscriber %d read %v: emission #%d after #%d; schedule: %s", s.idx, got, i, last, hist)})
+				v = append(v, c13verdict{"order-or-duplicate", fmt.Sprintf("subscriber %d read %v: emission #%d after #%d; schedule: %s", s.idx, got, i, last, hist), ""})
 			}
 			if ok && i > last {
 				last = i
@@ -787,15 +794,24 @@ func (w *c13world) oracles() []c13verdict {
 				continue
 			}
 			at, sent := e.sentTo[s.conn]
+			key := ""
+			switch {
+			case w.trig["uid_global"]:
+				key = "uid_global"
+			case w.trig17[[2]int{s.conn, int(s.sig)}]:
+				key = "sub_unserialised"
+			case w.trig16[[2]int{emIndex[e.p], s.conn}]:
+				key = "snapshot_send"
+			}
 			switch {
 			case !e.written[s.conn]:
-				v = append(v, c13verdict{"event-lost", fmt.Sprintf("subscriber %d (connection %d, signal %d, acknowledged at step %d) never got emission %d of step %d: no event frame was sent to its connection; schedule: %s", s.idx, s.conn, s.sig, s.ackPos, e.p, e.pos, hist)})
+				v = append(v, c13verdict{"event-lost", fmt.Sprintf("subscriber %d (connection %d, signal %d, acknowledged at step %d) never got emission %d of step %d: no event frame was sent to its connection; schedule: %s", s.idx, s.conn, s.sig, s.ackPos, e.p, e.pos, hist), key})
 			case !s.cancelled || (sent && at != 0 && at <= s.cancelPos):
-				v = append(v, c13verdict{"event-lost", fmt.Sprintf("subscriber %d (connection %d, signal %d) did not read emission %d although its frame was dispatched at step %d (cancel requested: %v at %d); schedule: %s", s.idx, s.conn, s.sig, e.p, at, s.cancelled, s.cancelPos, hist)})
+				v = append(v, c13verdict{"event-lost", fmt.Sprintf("subscriber %d (connection %d, signal %d) did not read emission %d although its frame was dispatched at step %d (cancel requested: %v at %d); schedule: %s", s.idx, s.conn, s.sig, e.p, at, s.cancelled, s.cancelPos, hist), key})
 			}
 		}
 		if s.cancelled && !s.finished && !s.waitUnreg {
-			v = append(v, c13verdict{"not-closed", fmt.Sprintf("subscriber %d: channel not closed after its cancel returned; schedule: %s", s.idx, hist)})
+			v = append(v, c13verdict{"not-closed", fmt.Sprintf("subscriber %d: channel not closed after its cancel returned; schedule: %s", s.idx, hist), ""})
 		}
 	}
 	// no event for a registration after the answer that acknowledged its removal
@@ -822,12 +838,22 @@ func (w *c13world) oracles() []c13verdict {
 				gone[removed[f.Hdr.ID]] = true
 			}
 			if f.Hdr.Type == net.Event && gone[f.Hdr.ID] {
-				v = append(v, c13verdict{"event-after-unregister-reply", fmt.Sprintf("connection %d: event frame %v written after the reply to unregisterEvent of that registration; schedule: %s", c, f, hist)})
+				key := ""
+				for k := range w.trig16 {
+					if k[1] == c {
+						key = "snapshot_send"
+					}
+				}
+				v = append(v, c13verdict{"event-after-unregister-reply", fmt.Sprintf("connection %d: event frame %v written after the reply to unregisterEvent of that registration; schedule: %s", c, f, hist), key})
 			}
 		}
 	}
 	for _, b := range w.bad {
-		v = append(v, c13verdict{"stalled", b + "; schedule: " + hist})
+		key := ""
+		if w.trig["uid_global"] {
+			key = "uid_global"
+		}
+		v = append(v, c13verdict{"stalled", b + "; schedule: " + hist, key})
 	}
 	return v
 }
@@ -835,16 +861,9 @@ func (w *c13world) oracles() []c13verdict {
 // report sends the verdicts of one run to the result: failures of a run that went through the
 // trigger of an observed defect switch are attributed to that switch.
 func (w *c13world) report(res *hx.Result, sw map[string]bool) {
-	key := ""
-	for _, k := range []string{"uid_global", "snapshot_send", "sub_unserialised"} {
-		if w.trig[k] && sw[k] {
-			key = k
-			break
-		}
-	}
 	for _, v := range w.oracles() {
-		if key != "" {
-			res.FailKnown(v.kind, v.detail, key)
+		if v.key != "" && sw[v.key] {
+			res.FailKnown(v.kind, v.detail, v.key)
 		} else {
 			res.Fail(v.kind, v.detail)
 		}
@@ -991,6 +1010,22 @@ func c13scripts() []func() (*c13world, string) {
 			w.startCancel(a) // count 2 -> 1: handler removed at once, the frame is still parked
 			w.drain()
 			return w, "cancel-with-event-in-flight"
+		},
+		func() (*c13world, string) { // four connections subscribed to one signal; the second leaves
+			w := c13new(4)
+			w.drive()
+			var ss []*c13sub
+			for c := 0; c < 4; c++ {
+				ss = append(ss, w.startSub(c, 201, c+1))
+				w.drain()
+			}
+			w.emitSnap(201, 85)
+			w.drain()
+			w.startCancel(ss[1])
+			w.drain()
+			w.emitSnap(201, 86)
+			w.drain()
+			return w, "four-connections-one-signal"
 		},
 		func() (*c13world, string) { // the same signal subscribed and cancelled three times on one client
 			w := c13new(2)
